@@ -318,6 +318,9 @@ func (h Header) MarshalTo(buf []byte) (n int, err error) { //nolint:cyclop
 				n += copy(buf[n:], extension.payload)
 			}
 		default: // RFC3550 Extension
+			if len(h.Extensions) == 0 {
+				break
+			}
 			extlen := len(h.Extensions[0].payload)
 			if extlen%4 != 0 {
 				// the payload must be in 32-bit words.
@@ -363,6 +366,9 @@ func (h Header) MarshalSize() int {
 				extSize += 2 + len(extension.payload)
 			}
 		default:
+			if len(h.Extensions) == 0 {
+				break
+			}
 			extSize += len(h.Extensions[0].payload)
 		}
 
